@@ -393,6 +393,7 @@ pub fn drive(prop: &dyn Prop, cfg: &DriverCfg) -> Report {
   let mut nums_max: BTreeMap<String, f64> = BTreeMap::new();
   let mut nums_sum: BTreeMap<String, f64> = BTreeMap::new();
   let mut inconcl_reasons: BTreeMap<String, usize> = BTreeMap::new();
+  let mut inconcl_samples: Vec<J> = Vec::new();
   let mut unknown_violations: Vec<String> = Vec::new();
   let mut viol_classes: BTreeMap<String, usize> = BTreeMap::new();
   let mut samples: Vec<J> = Vec::new();
@@ -411,7 +412,7 @@ pub fn drive(prop: &dyn Prop, cfg: &DriverCfg) -> Report {
     for (k, v) in &o.nums { let e = nums_max.entry(k.clone()).or_insert(f64::MIN); if *v > *e { *e = *v; } *nums_sum.entry(k.clone()).or_insert(0.0) += *v; }
     match o.verdict {
       Verdict::Held => { held += 1; if o.nontrivial { nontrivial_ids.insert(c.id.clone()); } }
-      Verdict::Inconclusive => { inconcl += 1; *inconcl_reasons.entry(o.class.clone()).or_insert(0) += 1; }
+      Verdict::Inconclusive => { inconcl += 1; *inconcl_reasons.entry(o.class.clone()).or_insert(0) += 1; if inconcl_samples.len() < 12 { inconcl_samples.push(json!({"id": c.id, "reason": o.class, "detail": o.detail.chars().take(300).collect::<String>(), "input": c.input})); } }
       Verdict::Violated => {
         violated += 1;
         nontrivial_ids.insert(c.id.clone());
@@ -482,6 +483,7 @@ pub fn drive(prop: &dyn Prop, cfg: &DriverCfg) -> Report {
     "cells_visited": cells.len(),
     "verdicts": {"held": held, "violated": violated, "inconclusive": inconcl},
     "inconclusive_reasons": inconcl_reasons,
+    "inconclusive_samples": inconcl_samples,
     "violation_classes": viol_classes,
     "known_findings_matched": kf_matched,
     "unlisted_violations": unknown_violations.len(),
